@@ -12,4 +12,6 @@ def units(tier):
         for k in range(6):
             u.append(dict(kind="xlift", mechanism="xlift bounded (C), exact", name=f"xlift:mixture[{label};{k}]", module="vf.tasks.t_source", func="unit",
                           args=dict(which="mixture", label=label, k=k)))
+    # a Sampler created without a source / detector is ideal whatever was done to another such Sampler before (no shared default objects)
+    u.append(dict(kind="func", mechanism="bounded runtime contract (C)", name="bounded:default-objects-not-shared", module="vf.tasks.t_history", func="unit_bystanders", args={}))
     return u
